@@ -1,6 +1,7 @@
 import Clikit.Lemmas.Progress
 import Clikit.Lemmas.ProgressClean
 import Clikit.Lemmas.ProgressSetters
+import Clikit.Lemmas.ProgressScreen
 /-!
 # C16 - a progress bar always shows a truthful, well-formed frame and ends at 100 %
 
@@ -705,6 +706,199 @@ example :
 example : (overwriteWith false (mkConfig .ansi false 0 120 0 none none (some 5) none none none none)
       { (init 3 0) with formatLineCount := 0, displayedLineCount := some 1 } 0 "1/3 done".toList).2 =
       [['\r'], "1/3 done".toList] := by decide +kernel
+
+/-! ## A whole ANSI history on the terminal with rows: the screen shows exactly the latest frame
+
+`set_format_no_residue` above speaks about ONE redraw on a screen that is assumed to hold the standing
+frame.  Here the screen is threaded through the history: `screenC x evs` (Model/Progress.lean) feeds the
+writes of every call of `runC` - write by write, as the code sends them: CR, `ESC[nA`, `ESC[0J`, the text
+(`Scr.write`) - to the terminal with rows, starting from `Scr.fresh k restRev`: the cursor at column 0 of
+an empty row, nothing below, `k` blank rows directly above and above those arbitrary earlier rows
+`restRev`.  `lastLinesFrom none evs` is the list of lines of the latest call that wrote anything
+(`shownLines`: the lines of its frame, each padded with blanks to the longest line of the previous
+message - `ljust lastLen`, as `_overwrite` pads them -, or the blank lines of `clear()`).
+
+**The first `_overwrite`** of a format with `n` line breaks sends `ESC[nA` although nothing of the bar
+stands on the terminal yet (`moveCount`: `displayedLineCount.getD formatLineCount`).  The rows it moves over
+are then overwritten by the frame (not erased: longer rows would leave residue).  The theorem therefore
+demands (`hfirst`) that the first write finds at least `n` BLANK rows above the cursor (`n ≤ k`; the frame then
+occupies `n` of them: `j = k - n` blank rows remain), or that nothing at all stands above the blank rows
+(`restRev = []`: the cursor stops at the top row, as on the harness's terminal, `Scr.up`).  Without it
+the row above the bar is lost - see the example after the theorems.
+
+Not proved here: (1) `hframes` is a hypothesis on the EVENTS of the history (decided by `framesFitB`, answered by
+the driver as `screen.fits`); that it follows from inputs without line breaks / CR / ESC in messages and bar
+characters (the multi-line analogue of `run_clean`) is not derived.  It cannot be dropped: a message with a line
+break breaks the statement (last example).  (2) The terminal reads the output write by write (`Scr.write`: each
+`stream.write` is one command or one text, which is how `_overwrite` sends them), not byte by byte; the rows it
+ends with are compared with the harness's byte-level emulator on every generated ANSI case. -/
+
+/-- **ANSI output, any format, any history with setters: the terminal shows exactly the latest frame.**
+For every prefix `evs1` of a history on an ANSI output that is not quiet - multi-line formats, `set_format`
+to another number of lines in the middle, `clear()`, throttled calls -, provided every frame drawn has as
+many line breaks as the format in use and contains neither CR nor ESC (`hframes`; decided by `framesFitB`)
+and the first write moves up over blank rows only (`hfirst`; decided by `firstMoveB`, see above):
+before anything was written the terminal is untouched; afterwards its rows are the earlier rows (`restRev`,
+written top to bottom), `j ≤ k` remaining blank rows, and then EXACTLY the lines of the latest writing call -
+no residue of longer or taller earlier frames -, nothing below, the cursor on the last of these lines (at
+its end). -/
+theorem ansi_screen_shows_latest_frame (c : Config) (hk : c.kind = .ansi) (hq : c.quiet = false) (m : Int)
+    (t0 : Nat) (calls : List (Call × Nat)) (k : Nat) (restRev : List Str)
+    (hframes : ∀ e ∈ runC c (init m t0) calls, ∀ f, e.res.frame = some f →
+      countNL f.text = e.res.st.formatLineCount ∧ Printable f.text)
+    (hfirst : restRev = [] ∨ ∀ e ∈ runC c (init m t0) calls, e.pre.displayedLineCount = none →
+      e.res.writes ≠ [] → e.res.st.formatLineCount ≤ k)
+    (evs1 evs2 : List CEvent) (h : runC c (init m t0) calls = evs1 ++ evs2) :
+    match lastLinesFrom none evs1 with
+    | none => screenC (Scr.fresh k restRev) evs1 = Scr.fresh k restRev
+    | some L => ∃ j, j ≤ k ∧ L ≠ [] ∧
+        screenC (Scr.fresh k restRev) evs1 = Scr.showing (List.replicate j [] ++ restRev) L ∧
+        (screenC (Scr.fresh k restRev) evs1).rows = restRev.reverse ++ List.replicate j [] ++ L ∧
+        (screenC (Scr.fresh k restRev) evs1).below = [] ∧
+        (screenC (Scr.fresh k restRev) evs1).aboveRev.length = restRev.length + j + (L.length - 1) := by
+  obtain ⟨s', hInv⟩ := runC_screen k restRev calls c (init m t0) (Scr.fresh k restRev) none hk hq
+    (by simp [ScrInv, init]) hframes hfirst evs1 evs2 h
+  unfold ScrInv at hInv
+  cases hd : s'.displayedLineCount with
+  | none =>
+    rw [hd] at hInv
+    rw [hInv.1]
+    exact hInv.2
+  | some n =>
+    rw [hd] at hInv
+    obtain ⟨L, j, hacc, hj, hlen, _, hx⟩ := hInv
+    rw [hacc]
+    have hne : L ≠ [] := by intro h0; rw [h0] at hlen; simp at hlen
+    have hr := showing_rows (List.replicate j [] ++ restRev) L hne
+    refine ⟨j, hj, hne, hx, ?_, ?_, ?_⟩
+    · rw [hx, hr.1]; simp
+    · rw [hx, hr.2.1]
+    · rw [hx, hr.2.2.1]; simp; omega
+
+/-- **... after a call that draws a frame**: the rows below the earlier ones are exactly the lines of THAT frame,
+each followed by blanks only (up to the longest line of the previous message). -/
+theorem ansi_screen_after_frame (c : Config) (hk : c.kind = .ansi) (hq : c.quiet = false) (m : Int)
+    (t0 : Nat) (calls : List (Call × Nat)) (k : Nat) (restRev : List Str)
+    (hframes : ∀ e ∈ runC c (init m t0) calls, ∀ f, e.res.frame = some f →
+      countNL f.text = e.res.st.formatLineCount ∧ Printable f.text)
+    (hfirst : restRev = [] ∨ ∀ e ∈ runC c (init m t0) calls, e.pre.displayedLineCount = none →
+      e.res.writes ≠ [] → e.res.st.formatLineCount ≤ k)
+    (evs1 : List CEvent) (e : CEvent) (evs2 : List CEvent)
+    (h : runC c (init m t0) calls = evs1 ++ e :: evs2) (f : Frame) (hf : e.res.frame = some f) :
+    ∃ j, j ≤ k ∧
+      (screenC (Scr.fresh k restRev) (evs1 ++ [e])).rows =
+        restRev.reverse ++ List.replicate j [] ++ (splitNL f.text).map (fun l => l ++ spaces (e.pre.lastLen - l.length)) ∧
+      (screenC (Scr.fresh k restRev) (evs1 ++ [e])).below = [] ∧
+      (screenC (Scr.fresh k restRev) (evs1 ++ [e])).aboveRev.length = restRev.length + j + countNL f.text := by
+  have hmem : e ∈ runC c (init m t0) calls := by rw [h]; simp
+  have hw : e.res.writes ≠ [] := by
+    have hev := runC_event c _ calls e hmem
+    rw [hev] at hf ⊢
+    exact frame_writes e.cfg e.pre e.call e.t (by rw [runC_quiet c _ calls e hmem, hq]) f hf
+  have hemp : e.res.writes.isEmpty = false := by
+    cases hwl : e.res.writes with
+    | nil => exact absurd hwl hw
+    | cons _ _ => rfl
+  have := ansi_screen_shows_latest_frame c hk hq m t0 calls k restRev hframes hfirst (evs1 ++ [e]) evs2
+    (by rw [h]; simp)
+  rw [lastLinesFrom_snoc, hemp] at this
+  simp only [Bool.false_eq_true, if_false] at this
+  obtain ⟨j, hj, _, _, hrows, hbelow, habove⟩ := this
+  have hsl : shownLines e = (splitNL f.text).map (fun l => l ++ spaces (e.pre.lastLen - l.length)) := by
+    simp only [shownLines, hf]; rfl
+  refine ⟨j, hj, by rw [hrows, hsl], hbelow, ?_⟩
+  rw [habove, hsl, List.length_map, splitNL_length]; omega
+
+/-- what the deciders `framesFitB`, `firstMoveB`, `printableB` (Model/Progress.lean) mean -/
+theorem screen_hyps_decide (k : Nat) (evs : List CEvent) :
+    (framesFitB evs = true ↔ ∀ e ∈ evs, ∀ f, e.res.frame = some f →
+      countNL f.text = e.res.st.formatLineCount ∧ Printable f.text) ∧
+    (firstMoveB k evs = true ↔ ∀ e ∈ evs, e.pre.displayedLineCount = none → e.res.writes ≠ [] →
+      e.res.st.formatLineCount ≤ k) :=
+  ⟨framesFitB_iff evs, firstMoveB_iff k evs⟩
+
+/-- `ansi_screen_shows_latest_frame` for the WHOLE history on the harness's terminal (nothing above the bar:
+`Scr.fresh 0 []`), from the decider: the rows of the terminal are exactly the lines of the latest writing call. -/
+theorem ansi_screen_final_dec (c : Config) (hk : c.kind = .ansi) (hq : c.quiet = false) (m : Int)
+    (t0 : Nat) (calls : List (Call × Nat)) (hframes : framesFitB (runC c (init m t0) calls) = true) :
+    match lastLinesFrom none (runC c (init m t0) calls) with
+    | none => screenC (Scr.fresh 0 []) (runC c (init m t0) calls) = Scr.fresh 0 []
+    | some L => (screenC (Scr.fresh 0 []) (runC c (init m t0) calls)).rows = L ∧
+        (screenC (Scr.fresh 0 []) (runC c (init m t0) calls)).below = [] := by
+  have := ansi_screen_shows_latest_frame c hk hq m t0 calls 0 [] ((framesFitB_iff _).mp hframes) (Or.inl rfl)
+    (runC c (init m t0) calls) [] (by simp)
+  cases hl : lastLinesFrom none (runC c (init m t0) calls) with
+  | none => rw [hl] at this; exact this
+  | some L =>
+    rw [hl] at this
+    obtain ⟨j, hj, _, _, hrows, hbelow, _⟩ := this
+    have : j = 0 := by omega
+    subst this
+    exact ⟨by simpa using hrows, hbelow⟩
+
+/-- the read-back of the cursor-up command the code sends -/
+theorem cursor_up_read_back (n : Nat) : parseCursorUp (cursorUp n) = some n := parseCursorUp_cursorUp n
+
+/-! ### non-vacuity: a two-line format, `set_format` to one line, `clear()`, and the first move -/
+
+/-- maximum 3, bar width 5, the two-line format `%current%/%max%` / `[%bar%]` -/
+private def cTwo : Config :=
+  mkConfig .ansi false 0 120 0 none none (some 5) none none none (some "%current%/%max%\n[%bar%]".toList)
+
+/-- `start`, `advance` (two-line frames, overwritten in place), `set_format` to ONE line, `advance` (moves
+up one row and erases), `set_format` back to two lines with a longer first line, `advance`, `clear()` -/
+private def callsTwo : List (Call × Nat) :=
+  [(.op (.start none), 64000), (.op (.advance 1), 64016),
+   (.set (.format "%current%/%max% done".toList), 64017), (.op (.advance 1), 64032),
+   (.set (.format "step %current%\n%bar%".toList), 64033), (.op (.advance 1), 64048)]
+
+/-- the hypotheses of `ansi_screen_shows_latest_frame` hold on this history: with one blank row above the bar
+(`k = 1`), and on the harness's terminal (`restRev = []`) whatever `k` is -/
+example : framesFitB (runC cTwo (init 3 64000) callsTwo) = true ∧
+    firstMoveB 1 (runC cTwo (init 3 64000) callsTwo) = true ∧
+    firstMoveB 0 (runC cTwo (init 3 64000) callsTwo) = false := by decide +kernel
+
+/-- the screens after every call, below a line of the application and one blank row: the two-line frames
+stand on the blank row and the cursor row; after `set_format` the single line stands directly below
+`app output` (nothing of the second row is left); the two-line frame after it is padded to the longest line
+written before -/
+example : (List.range 7).map (fun i =>
+      (screenC (Scr.fresh 1 ["app output".toList]) ((runC cTwo (init 3 64000) callsTwo).take i)).rows) =
+    [["app output".toList, [], []],
+     ["app output".toList, "0/3".toList, "[>----]".toList],
+     ["app output".toList, "1/3    ".toList, "[=>---]".toList],
+     ["app output".toList, "1/3    ".toList, "[=>---]".toList],
+     ["app output".toList, "2/3 done".toList],
+     ["app output".toList, "2/3 done".toList],
+     ["app output".toList, "step 3  ".toList, "=====   ".toList]] := by decide +kernel
+
+/-- the theorem applied to the whole history (every hypothesis discharged) -/
+example := ansi_screen_shows_latest_frame cTwo rfl rfl 3 64000 callsTwo 1 ["app output".toList]
+  ((framesFitB_iff _).mp (by decide +kernel)) (Or.inr ((firstMoveB_iff 1 _).mp (by decide +kernel)))
+  (runC cTwo (init 3 64000) callsTwo) [] (by simp)
+
+/-- ... and on the harness's terminal (nothing above: the first `ESC[1A` stops at the top row) -/
+example : (screenC (Scr.fresh 0 []) (runC cTwo (init 3 64000) callsTwo)).rows =
+    ["step 3  ".toList, "=====   ".toList] ∧
+    lastLinesFrom none (runC cTwo (init 3 64000) callsTwo) = some ["step 3  ".toList, "=====   ".toList] := by
+  decide +kernel
+
+example := ansi_screen_final_dec cTwo rfl rfl 3 64000 callsTwo (by decide +kernel)
+
+/-- `hfirst` is needed: WITHOUT a blank row above the bar the first `_overwrite` of the two-line format moves up
+onto the application's line and overwrites it (`app output` becomes `0/3output`) -/
+example : (screenC (Scr.fresh 0 ["app output".toList]) ((runC cTwo (init 3 64000) callsTwo).take 1)).rows =
+    ["0/3 output".toList, "[>----]".toList] := by decide +kernel
+
+/-- `hframes` is needed: a message with a line break put into a one-line format makes `_overwrite` write two
+lines while it remembers a line count of 0 - the next frame leaves the first of them on the terminal -/
+example :
+    let c := mkConfig .ansi false 0 120 0 none none none none none none (some "%message% %current%".toList)
+    let evs := runC c (init 0 64000)
+      [(.op (.setMessage "a\nb".toList), 64000), (.op (.start none), 64000), (.op (.setMessage "c".toList), 64001),
+       (.op (.advance 1), 64064)]
+    framesFitB evs = false ∧
+    (screenC (Scr.fresh 0 []) evs).rows = ["a".toList, "c    1".toList] := by decide +kernel
 
 /-! ## Non-vacuity of the theorems about setters and `set_format` (hypothesis audit, rounds 8-9) -/
 
